@@ -273,6 +273,21 @@ theorem bump_witness :
     Spec.find idx 3 30 (some [3]) false = .ok 3 ∧ Spec.find idx 3 30 (some [3]) true = .ok 3 := by
   refine ⟨by rfl, by rfl, by rfl, by rfl⟩
 
+/-- `getRecords_window` and `pagewalk_complete_*` hold for EVERY page size: GetRecords has no size-dependent
+case.  The broken rule of seeded change C06-r6-1 (GetRecords silently reads at most `cap` records while
+ptt.LoadGeneralArticles recognises a further page by getting `n + 1` records back), on a small scale (cap 2,
+4 records, page size 2): the capped listing reports no next page after the first one, the real one names
+record 3 as the next cursor. -/
+def getRecordsCapped (cap : Int) (idx : Index) (start n : Int) (isDesc : Bool) : R (List (Int × Entry)) :=
+  getRecords idx start (min n cap) isDesc
+
+theorem cap_witness :
+    let idx : Index := [⟨some 10, [1]⟩, ⟨some 11, [2]⟩, ⟨some 12, [3]⟩, ⟨some 13, [4]⟩]
+    (pttLoadWith (getRecordsCapped 2 idx) 4 1 2 false).map (fun p => (p.items.map (·.1), p.next.map (·.1)))
+        = .ok ([1, 2], none) ∧
+    (pttLoad idx 4 1 2 false).map (fun p => (p.items.map (·.1), p.next.map (·.1))) = .ok ([1, 2], some 3) := by
+  refine ⟨by rfl, by rfl⟩
+
 /-! #### non-vacuity and witnesses (kernel evaluation of the model) -/
 
 def exIdx : Index :=
